@@ -45,10 +45,27 @@
 (*   Grain = "atomic"  one action per atomic operation: all interleavings  *)
 (*                     of the registering thread "a" with the resolver     *)
 (*                     thread(s) (replayed on real threads under vsched)   *)
+(*   Grain = "fine"    the finest grain vsched can replay (yield_after):   *)
+(*                     every atomic operation X is a step of its own (XOp) *)
+(*                     and the plain code that follows it up to the next   *)
+(*                     atomic operation is a step of its own (XLoc, action *)
+(*                     PostX): plain code on the wrong side of an atomic   *)
+(*                     operation (arming the helper after the publishing   *)
+(*                     CAS) is exposed to the other thread in between.     *)
+(*                     The atomic-grain functions ARE XLoc(XOp(..)).       *)
 (*   Grain = "call"    one action per public call of a single thread:      *)
 (*                     Register(timing,outcome) / Resolve(outcome) are the *)
 (*                     compositions of the atomic functions in the only    *)
 (*                     order a single thread can execute them              *)
+(* Calling context (par.ctx, call grain): "plain" = ordinary code, "coro" = *)
+(* from inside a running coroutine (coro_queue active).  There the helper  *)
+(* coroutine of callback_await is only QUEUED by detach() (suspend_point.h *)
+(* :130-135) and starts when the caller suspends/finishes (action Yield);  *)
+(* its resumption after the awaited future resolved is queued likewise.    *)
+(* The awaitable is built when the helper starts, from the helper's own    *)
+(* copies of the arguments (callback_awaiter.h:69 takes them by value):    *)
+(* par.argk says how the caller passed them (temporary / lvalue / moved    *)
+(* named object); ArgsAsPassed demands they equal what was passed.         *)
 (* The static choices (adapter, allocator, converter behaviour, ...) are   *)
 (* the record `par`, picked in Init: one TLC run covers all combinations.  *)
 (***************************************************************************)
@@ -57,12 +74,18 @@ EXTENDS Integers, Sequences, FiniteSets, TLC
 CONSTANTS
     Ads,         \* adapters under test
     Allocs,      \* allocator choices of the allocating adapters: "heap" "reusable" "mtsafe" "counting"
-    Grain,       \* "call" | "atomic"
+    Grain,       \* "call" | "atomic" | "fine"
+    Ctxs,        \* calling contexts: "plain" (ordinary code) "coro" (inside a running coroutine; call grain only)
+    ArgKinds,    \* how callback_await's awaitable-constructor argument is passed: "temp" "lvalue" "moved"
     Res,         \* resolver threads, subset of {"r1","r2"}
     Outcomes,    \* subset of {"val","exc","drop"}
     MaxRounds,   \* awaited operations per scenario (reuse of the helper / of the storage)
-    FixVoidSrc   \* TRUE: the void-source converters propagate the source's exception / broken promise
+    FixVoidSrc,  \* TRUE: the void-source converters propagate the source's exception / broken promise
                  \* (repaired, /repo commit 51599f2); FALSE: future_conv.h as pinned (they never look at the source)
+    ArmLate,     \* {} as the code is.  Seeded variant (self-test): adapters that store the helper's resume
+                 \* function AFTER the publishing CAS instead of before it
+    ArgsByRef    \* FALSE as the code is.  Seeded variant (self-test): the helper coroutine keeps references
+                 \* to the caller's arguments instead of copies
 
 VARIABLES par, s
 vars == <<par, s>>
@@ -83,8 +106,9 @@ Callback  == Functor \cup {"callfn"}                                     \* comp
    tovoid: To = void.  reg: `outer = conv << fn` (ret) or `conv(std::move(prom)) << fn` (hlp). *)
 Params ==
     {p \in [ad : Ads, alloc : Allocs \cup {"na"}, cv : {"na", "ok", "throw", "ignore", "later"},
-            tovoid : BOOLEAN, reg : {"na", "ret", "hlp"}] :
+            tovoid : BOOLEAN, reg : {"na", "ret", "hlp"}, ctx : Ctxs, argk : ArgKinds \cup {"na"}] :
         /\ (p.ad \in Allocating) = (p.alloc # "na")
+        /\ (p.ad \in Coroutine) = (p.argk # "na")
         /\ p.ad \in ConvValue => p.cv \in {"ok", "throw"}
         /\ p.ad \in ConvPP => p.cv \in {"ok", "throw", "ignore", "later"}
         /\ p.ad \notin Conv => p.cv = "na"
@@ -97,6 +121,12 @@ S0 == [round |-> 0,
        owner |-> "none", slot |-> "none", tag |-> "none", payload |-> 0,
        \* threads: the registering thread and the resolvers
        apc |-> "idle", rpc |-> [r \in Res |-> "idle"], rres |-> [r \in Res |-> "none"], rk |-> [r \in Res |-> "none"],
+       \* locals of a thread between an atomic operation and the plain code after it (fine grain)
+       sawready |-> FALSE, casok |-> FALSE, won |-> [r \in Res |-> FALSE], chain |-> [r \in Res |-> "null"],
+       armed |-> FALSE,   \* the helper's awaiter node has its resume function / coroutine handle set
+       \* ready queue of the calling thread (ctx = "coro"): the helper coroutine's start / resumption
+       q |-> "none", qpre |-> "none",
+       badargs |-> 0,     \* awaitables built from arguments that differ from the ones passed
        \* helper block: abstract life cycle and what can be observed of it
        hlive |-> 0, hallocs |-> 0, hfrees |-> 0,
        heap |-> 0,        \* live blocks obtained from ::operator new by library code
@@ -112,7 +142,7 @@ S0 == [round |-> 0,
        prom |-> "null", outer |-> [st |-> "none", v |-> 0], user |-> "none"]
 
 Init == /\ par \in Params
-        /\ s \in IF Grain = "atomic" THEN {[S0 EXCEPT !.rk = k] : k \in [Res -> Outcomes]} ELSE {S0}
+        /\ s \in IF Grain \in {"atomic", "fine"} THEN {[S0 EXCEPT !.rk = k] : k \in [Res -> Outcomes]} ELSE {S0}
 
 Idx(r) == IF r = "r1" THEN 1 ELSE 2
 ValOf(st, r) == IF par.ad \in VoidSrc THEN 0 ELSE 10 * st.round + Idx(r)
@@ -177,42 +207,84 @@ Fire(st, th) ==
 -----------------------------------------------------------------------------
 (* the atomic operations as functions on the state *)
 
-RoundDone(st) == /\ st.apc \in {"idle", "done"}
+RoundDone(st) == /\ st.apc \in {"idle", "done"} /\ st.q = "none"
                  /\ \A r \in Res : st.rpc[r] \in {"idle", "done"}
                  /\ st.round > 0 => st.fired = 1
                  /\ st.user # "held"
 CanStart(st) == RoundDone(st) /\ st.round < MaxRounds
 
-(* the registration call up to its first atomic operation on the awaited future: helper allocated, future
-   created, promise handed out.  make_promise has no registration: the helper sits in the chain from birth. *)
-StartRound(st) ==
-    LET s1 == [st EXCEPT !.round = @ + 1, !.owner = "fut", !.tag = "none", !.payload = 0, !.fired = 0,
-                         !.slot = IF par.ad = "mkprom" THEN "helper" ELSE "null",
-                         !.rpc = [r \in Res |-> "claim"], !.rres = [r \in Res |-> "none"],
-                         !.apc = IF par.ad = "mkprom" THEN "done" ELSE IF par.ad \in Coroutine THEN "check" ELSE "cas"]
-        s2 == IF par.ad \in Conv
-                THEN [s1 EXCEPT !.prom = "outer", !.outer = [st |-> "pending", v |-> 0], !.user = "none"]
-                ELSE s1
-    IN  IF par.ad \in Allocating \cup {"discard"} THEN AllocHelper(s2) ELSE s2
+(* the registration call up to its first atomic operation on the awaited future, in two parts:
+   StartAlloc  the helper is allocated (callback_await: frame + the helper's copies of functor and arguments)
+   StartBuild  the awaitable is built: future created, promise handed out.  make_promise has no registration:
+               the helper sits in the chain from birth.  Hand-made awaiters are armed here, BEFORE the CAS
+               (future.h:885,975,1034; future_conv.h constructors); co_await arms in await_suspend (CheckLoc). *)
+StartAlloc(st) ==
+    LET s1 == [st EXCEPT !.round = @ + 1, !.owner = "none", !.slot = "none", !.tag = "none", !.payload = 0, !.fired = 0,
+                         !.rpc = [r \in Res |-> "idle"], !.rres = [r \in Res |-> "none"], !.apc = "queued"]
+    IN  IF par.ad \in Allocating \cup {"discard"} THEN AllocHelper(s1) ELSE s1
 
-(* promise::claim: the winner's future::set follows in the same step *)
-ClaimF(st, r) ==
-    IF st.owner = "fut"
+Dangling == ArgsByRef /\ par.ctx = "coro" /\ par.argk \in {"temp", "moved"}
+
+StartBuild(st) ==
+    LET s1 == [st EXCEPT !.owner = "fut",
+                         !.slot = IF par.ad = "mkprom" THEN "helper" ELSE "null",
+                         !.armed = par.ad \notin Coroutine /\ par.ad \notin ArmLate,
+                         !.rpc = [r \in Res |-> "claim"],
+                         !.apc = IF par.ad = "mkprom" THEN "done" ELSE IF par.ad \in Coroutine THEN "check" ELSE "cas",
+                         !.badargs = IF par.ad \in Coroutine /\ Dangling THEN @ + 1 ELSE @]
+    IN  IF par.ad \in Conv
+          THEN [s1 EXCEPT !.prom = "outer", !.outer = [st |-> "pending", v |-> 0], !.user = "none"]
+          ELSE s1
+
+StartRound(st) == StartBuild(StartAlloc(st))
+
+(* The two halves of every atomic operation: XOp performs the operation and remembers what it observed in a
+   local; XLoc is the plain code up to the thread's next atomic operation (locals are reset to their idle
+   values there, so the coarser grains do not see them). *)
+
+(* promise::claim: _owner.exchange(nullptr); the winner's future::set (plain stores) follows *)
+ClaimOp(st, r) == [st EXCEPT !.won[r] = (st.owner = "fut"), !.owner = "null", !.rpc[r] = "post_claim"]
+ClaimLoc(st, r) ==
+    IF st.won[r]
       THEN LET k == st.rk[r] IN
-           [st EXCEPT !.owner = "null",
+           [st EXCEPT !.won[r] = FALSE,
                       !.tag = IF k = "drop" THEN "none" ELSE k,
                       !.payload = IF k = "val" THEN ValOf(st, r) ELSE IF k = "exc" THEN ExcOf(st, r) ELSE 0,
                       !.rpc[r] = "swap"]
       ELSE [st EXCEPT !.rpc[r] = "done", !.rres[r] = "false"]
+ClaimF(st, r) == ClaimLoc(ClaimOp(st, r), r)
 
-(* resolving exchange + chain walk (+ release of the suspend point for a coroutine helper) *)
-SwapF(st, r) ==
-    LET s1 == [st EXCEPT !.slot = "ready", !.rpc[r] = "done", !.rres[r] = "true"] IN
-    IF st.slot = "helper" THEN Fire(s1, r) ELSE s1
+(* a coroutine helper resumed from inside a running coroutine is only queued (suspend_point.h:132-135) *)
+Deferred == par.ctx = "coro" /\ par.ad \in Coroutine
 
-CheckF(st) == IF st.slot = "ready" THEN Fire([st EXCEPT !.apc = "done"], "a") ELSE [st EXCEPT !.apc = "cas"]
-CasF(st)   == IF st.slot = "null" THEN [st EXCEPT !.slot = "helper", !.apc = "done"] ELSE [st EXCEPT !.apc = "fence"]
-FenceF(st) == Fire([st EXCEPT !.apc = "done"], "a")
+(* resolving exchange; then the chain walk: resume() of the detached node calls whatever resume function the
+   node has at that moment -- awaiter::null_fn (nothing happens, ever) if it was published unarmed *)
+SwapOp(st, r) == [st EXCEPT !.chain[r] = IF st.slot = "helper" THEN "helper" ELSE "null", !.slot = "ready",
+                            !.rpc[r] = "post_swap"]
+SwapLoc(st, r) ==
+    LET s1 == [st EXCEPT !.chain[r] = "null", !.rpc[r] = "done", !.rres[r] = "true"] IN
+    IF st.chain[r] # "helper" \/ ~st.armed THEN s1
+    ELSE IF Deferred THEN [s1 EXCEPT !.q = "resume"]
+    ELSE Fire(s1, r)
+SwapF(st, r) == SwapLoc(SwapOp(st, r), r)
+
+(* co_awaiter::await_ready, then (not ready) await_suspend: set_handle (awaiter.h:184-187) *)
+CheckOp(st) == [st EXCEPT !.sawready = (st.slot = "ready"), !.apc = "post_check"]
+CheckLoc(st) == IF st.sawready THEN Fire([st EXCEPT !.sawready = FALSE, !.apc = "done"], "a")
+                ELSE [st EXCEPT !.apc = "cas", !.armed = TRUE]
+CheckF(st) == CheckLoc(CheckOp(st))
+
+(* subscribe_check_ready: the CAS publishes the node; refused: _next = nullptr, fence *)
+CasOp(st) == IF st.slot = "null" THEN [st EXCEPT !.slot = "helper", !.casok = TRUE, !.apc = "post_cas"]
+             ELSE [st EXCEPT !.casok = FALSE, !.apc = "post_cas"]
+CasLoc(st) == IF st.casok THEN [st EXCEPT !.casok = FALSE, !.apc = "done", !.armed = @ \/ par.ad \in ArmLate]
+              ELSE [st EXCEPT !.apc = "fence"]
+CasF(st) == CasLoc(CasOp(st))
+
+(* refused registration: the registering thread runs the completion itself *)
+FenceOp(st) == [st EXCEPT !.apc = "post_fence"]
+FenceLoc(st) == Fire([st EXCEPT !.apc = "done", !.armed = @ \/ par.ad \in ArmLate], "a")
+FenceF(st) == FenceLoc(FenceOp(st))
 
 AStep(st) == CASE st.apc = "check" -> CheckF(st) [] st.apc = "cas" -> CasF(st) [] st.apc = "fence" -> FenceF(st)
 RECURSIVE RunA(_)
@@ -225,11 +297,21 @@ ResolveF(st, o) == SwapF(ClaimF([st EXCEPT !.rk["r1"] = o], "r1"), "r1")
 
 (* t = "before": the operation completes inside the function that starts it (the promise is resolved
    before the adapter subscribes); t = "after": it is still pending when the registration returns *)
+BuildAndRun(st, o) == RunA(IF o # "none" THEN ResolveF(StartBuild(st), o) ELSE StartBuild(st))
+
 Register(t, o) ==
     /\ Grain = "call" /\ CanStart(s)
     /\ (t = "before") = (o # "none")
     /\ par.ad = "mkprom" => t = "after"
-    /\ s' = RunA(IF t = "before" THEN ResolveF(StartRound(s), o) ELSE StartRound(s))
+    /\ s' = IF Deferred THEN [StartAlloc(s) EXCEPT !.q = "start", !.qpre = o]    \* detach(): helper queued
+            ELSE BuildAndRun(StartAlloc(s), o)
+    /\ UNCHANGED par
+
+(* the calling coroutine suspends (or finishes): the thread's ready queue runs the helper coroutine *)
+Yield ==
+    /\ Grain = "call" /\ s.q # "none"
+    /\ s' = IF s.q = "start" THEN BuildAndRun([s EXCEPT !.q = "none", !.qpre = "none"], s.qpre)
+            ELSE Fire([s EXCEPT !.q = "none"], "a")
     /\ UNCHANGED par
 
 Resolve(o) ==
@@ -245,6 +327,19 @@ Fence == Grain = "atomic" /\ s.apc = "fence" /\ s' = FenceF(s) /\ UNCHANGED par
 Claim(r) == Grain = "atomic" /\ s.rpc[r] = "claim" /\ s' = ClaimF(s, r) /\ UNCHANGED par
 Swap(r)  == Grain = "atomic" /\ s.rpc[r] = "swap" /\ s' = SwapF(s, r) /\ UNCHANGED par
 
+(* Grain = "fine": the operation (same action names) and the plain code after it (PostX) *)
+FStart == Grain = "fine" /\ CanStart(s) /\ s' = StartRound(s) /\ UNCHANGED par
+FCheck == Grain = "fine" /\ s.apc = "check" /\ s' = CheckOp(s) /\ UNCHANGED par
+PostCheck == Grain = "fine" /\ s.apc = "post_check" /\ s' = CheckLoc(s) /\ UNCHANGED par
+FCas == Grain = "fine" /\ s.apc = "cas" /\ s' = CasOp(s) /\ UNCHANGED par
+PostCas == Grain = "fine" /\ s.apc = "post_cas" /\ s' = CasLoc(s) /\ UNCHANGED par
+FFence == Grain = "fine" /\ s.apc = "fence" /\ s' = FenceOp(s) /\ UNCHANGED par
+PostFence == Grain = "fine" /\ s.apc = "post_fence" /\ s' = FenceLoc(s) /\ UNCHANGED par
+FClaim(r) == Grain = "fine" /\ s.rpc[r] = "claim" /\ s' = ClaimOp(s, r) /\ UNCHANGED par
+PostClaim(r) == Grain = "fine" /\ s.rpc[r] = "post_claim" /\ s' = ClaimLoc(s, r) /\ UNCHANGED par
+FSwap(r) == Grain = "fine" /\ s.rpc[r] = "swap" /\ s' = SwapOp(s, r) /\ UNCHANGED par
+PostSwap(r) == Grain = "fine" /\ s.rpc[r] = "post_swap" /\ s' = SwapLoc(s, r) /\ UNCHANGED par
+
 (* the promise-passing converter kept the outer promise (cv = "later") and resolves it now *)
 UserResolve ==
     /\ s.user = "held"
@@ -253,8 +348,11 @@ UserResolve ==
 
 Next == \/ \E t \in {"before", "after"}, o \in Outcomes \cup {"none"} : Register(t, o)
         \/ \E o \in Outcomes : Resolve(o)
+        \/ Yield
         \/ Start \/ Check \/ Cas \/ Fence
         \/ \E r \in Res : Claim(r) \/ Swap(r)
+        \/ FStart \/ FCheck \/ PostCheck \/ FCas \/ PostCas \/ FFence \/ PostFence
+        \/ \E r \in Res : FClaim(r) \/ PostClaim(r) \/ FSwap(r) \/ PostSwap(r)
         \/ UserResolve
 
 Spec == Init /\ [][Next]_vars /\ WF_vars(Next)
@@ -267,8 +365,10 @@ TypeOK ==
     /\ s.owner \in {"none", "fut", "null"}
     /\ s.slot \in {"none", "null", "helper", "ready"}
     /\ s.tag \in {"none", "val", "exc"}
-    /\ s.apc \in {"idle", "check", "cas", "fence", "done"}
-    /\ \A r \in Res : s.rpc[r] \in {"idle", "claim", "swap", "done"}
+    /\ s.apc \in {"idle", "queued", "check", "post_check", "cas", "post_cas", "fence", "post_fence", "done"}
+    /\ \A r \in Res : s.rpc[r] \in {"idle", "claim", "post_claim", "swap", "post_swap", "done"}
+    /\ s.q \in {"none", "start", "resume"}
+    /\ Grain # "call" => par.ctx = "plain"
     /\ s.hlive \in {0, 1} /\ s.heap \in 0..2 /\ s.blk \in {0, 1} /\ s.fb \in {0, 1} /\ s.cb \in {0, 1}
     /\ s.fired \in {0, 1}
 
@@ -280,7 +380,7 @@ Registered == s.apc = "done"
 CallbackOnce ==
     /\ s.fired <= 1
     /\ s.fired = 1 => Resolved
-    /\ (Resolved /\ Registered) => s.fired = 1
+    /\ (Resolved /\ Registered /\ s.q = "none" /\ \A r \in Res : s.rpc[r] # "post_swap") => s.fired = 1
     /\ par.ad \in Callback => s.calls = (IF s.round = 0 THEN 0 ELSE s.round - 1 + s.fired)
     /\ par.ad \in Conv => s.calls <= (IF s.round = 0 THEN 0 ELSE s.round - 1 + s.fired)
     /\ par.ad = "discard" => s.calls = 0
@@ -298,6 +398,13 @@ RightOutcome ==
     \* the completion runs on the registering thread (registration refused) or on the winner's thread
     /\ (par.ad \in Callback /\ s.fired = 1) => s.by \in {"a"} \cup {r \in Res : s.rres[r] = "true"}
     /\ (par.ad = "mkprom" /\ s.fired = 1) => s.by # "a"
+
+(* a published node is resumable: whoever can reach the helper through the chain finds its resume function
+   (or coroutine handle) set -- it is stored before the publishing CAS *)
+PublishedResumable == s.slot = "helper" => s.armed
+
+(* the awaitable is built from values equal to the ones passed, whenever the helper actually starts *)
+ArgsAsPassed == s.badargs = 0
 
 (* the helper block is released exactly once, by the completion; afterwards nothing is left *)
 HelperFreedOnce ==
